@@ -8,8 +8,10 @@ import (
 	"errors"
 	"fmt"
 	"io"
+	"net"
 	"os"
 	"strings"
+	"syscall"
 	"time"
 
 	modbus "github.com/aldas/go-modbus-client"
@@ -25,7 +27,8 @@ const prop = "C08"
 var faults = []string{"stall", "eof", "ioerr", "ioerr+data", "oversize-burst", "oversize-by-1", "oversize-by-2", "oversize-by-4", "oversize-drip", "write-error", "setwritedeadline-error", "cancel", "cancel-before", "cancel-before+reply", "flush-error", "ctx-deadline",
 	// two things failing at once on a serial port that can be flushed (an unplugged adapter): the transport failure AND the
 	// flush the client attempts on its failure path
-	"write-error+flush-error", "ioerr+flush-error", "ioerr+data+flush-error", "eof+flush-error"}
+	"write-error+flush-error", "ioerr+flush-error", "ioerr+data+flush-error", "eof+flush-error",
+	"ioerr-timeoutish"}
 
 type Case struct {
 	Kind    int      `json:"kind"`
@@ -39,6 +42,12 @@ type Case struct {
 }
 
 var errInjected = errors.New("injected transport failure")
+
+// errLinkTimedOut is a hard link failure whose error value says Timeout() == true (ETIMEDOUT from the kernel: the peer
+// stopped acknowledging) - not an expired read deadline: the client must not mistake it for an empty poll.
+var errLinkTimedOut error = &net.OpError{Op: "read", Net: "tcp", Err: syscall.ETIMEDOUT}
+
+func injected(err error) bool { return err == errInjected || err == errLinkTimedOut }
 
 type faulty struct {
 	c     *explore.Ctx
@@ -83,6 +92,11 @@ func (f *faulty) Read(t *clientx.Transport, bufLen int) clientx.ReadAnswer {
 	case "ioerr":
 		if first {
 			return clientx.ReadAnswer{Err: errInjected, Label: "ioerr"}
+		}
+		return f.silent()
+	case "ioerr-timeoutish":
+		if first {
+			return clientx.ReadAnswer{Err: errLinkTimedOut, Label: "ioerr"}
 		}
 		return f.silent()
 	case "ioerr+data":
@@ -186,7 +200,7 @@ func judge(sc clientx.Sc, run clientx.Run, c Case, res *ev.Result) (nontrivial b
 		switch e.Op {
 		case "read":
 			total += e.N
-			if e.ErrVal() == errInjected {
+			if injected(e.ErrVal()) {
 				sawInjectedRead = true
 			}
 		case "write":
@@ -239,7 +253,7 @@ func judge(sc clientx.Sc, run clientx.Run, c Case, res *ev.Result) (nontrivial b
 	lastEmpty := false
 	for _, e := range run.Log {
 		if e.Op == "read" {
-			lastEmpty = e.N == 0 && e.ErrVal() != errInjected
+			lastEmpty = e.N == 0 && !injected(e.ErrVal())
 		}
 	}
 	timedOut := run.Elapsed >= deadline && lastEmpty
@@ -289,12 +303,23 @@ func judge(sc clientx.Sc, run clientx.Run, c Case, res *ev.Result) (nontrivial b
 			bad("cancel-misclassified", fmt.Sprintf("context was cancelled but error is %v (%T)", run.Err, run.Err))
 		}
 	case sawInjectedRead:
-		if !isCE || !errors.Is(run.Err, errInjected) {
+		cause := errInjected
+		if c.Fault == "ioerr-timeoutish" {
+			cause = errLinkTimedOut
+		}
+		if !isCE || !errors.Is(run.Err, cause) {
 			bad("io-error-misclassified", fmt.Sprintf("a transport read failed with the injected error but the call returned %v (%T)", run.Err, run.Err))
 		}
 	case oversize:
 		if !isCE || ce != &modbus.ErrPacketTooLong {
 			bad("oversize-misclassified", fmt.Sprintf("transport delivered %d bytes (> %d) but the call returned %v (%T)", total, max, run.Err, run.Err))
+		}
+	case c.Fault == "stall" && !timedOut && run.Delivered < sc.Expected && run.Delivered < len(sc.Reply):
+		// the line went silent before the client had the bytes it asks for, and the call returned BEFORE its read timeout:
+		// whatever made it give up, a stall is reported as the retryable client error (never as a parse error of the
+		// fragment)
+		if !isCE {
+			bad("stall-misclassified", fmt.Sprintf("the line went silent after %d of %d reply bytes (the client asks for %d); the call returned %v (%T) after %v, before its read timeout", run.Delivered, len(sc.Reply), sc.Expected, run.Err, run.Err, run.Elapsed))
 		}
 	case timedOut:
 		if !isCE {
